@@ -26,6 +26,7 @@ type sessObs struct {
 	snap2G    []string
 	loadOK    []bool
 	probeSame bool
+	snapFail  bool
 }
 
 type baseline struct {
@@ -90,6 +91,7 @@ func runSession(dir string, n int, b *baseline, forms, probes []string, wild boo
 	o.ProbeA = a.Probes
 	if a.SnapErr != "" {
 		o.Problems = append(o.Problems, "snapshot failed: "+a.SnapErr)
+		o.snapFail = true
 		return o, nil
 	}
 	var rerr string
@@ -196,7 +198,10 @@ func sessionTerm(o *sessObs) (string, bool) {
 	for i, b := range o.loadOK {
 		oks[i] = common.GBool(b)
 	}
-	wildText := o.WildText || o.ReadErr != "" || len(o.loadOK) != len(o.snap1G)
-	return fmt.Sprintf("SCase %s %s %s %s %s %s %s", common.GList(hist), common.GBool(wildText), common.GList(o.snap1G),
+	wildText := o.WildText
+	if o.ReadErr != "" || len(o.loadOK) != len(o.snap1G) {
+		o.snapFail = true // no readable snapshot: judged like a failure of the snapshot writer
+	}
+	return fmt.Sprintf("SCase %s %s %s %s %s %s %s %s", common.GList(hist), common.GBool(wildText), common.GBool(o.snapFail), common.GList(o.snap1G),
 		common.GList(oks), common.GList(o.snap2G), common.GBool(o.TextSame), common.GBool(o.probeSame)), true
 }
